@@ -446,3 +446,5 @@ _quick("C01", "C01_prioritymutex", "the shard mutex (PriorityMutex.Lock / LowPri
 _quick("C02", "C02_rolling", "a shared key of capacity 2 / 3 / 8 that is never free: filled, then 20 rounds of {the oldest holder releases, a new LockId takes the slot, the newest holder re-enters (Rcount 1) and releases that level, a stranger's unlock is refused}; after every round the key's holds are exactly the outstanding LockIds; at the end every holder's own UNLOCK is accepted", ["-witness", "1"])
 
 _quick("C03", "C11_ack", "(also under C11) one ack-required LOCK, 0..2 followers, every sequence of <=4 events from {leader flush, follower ack ok, follower ack negative, UNLOCK / LOCK same LockId, unlock-first, ack wait times out}: exactly one terminal reply for the request — also after a failed acknowledgement, when its own wait runs out 8 s later", ["-witness", "50"], reach=["end", "rolled-back"])
+
+_quick("C04", "C04_afterleave", "a shared hold (symbolic Count) and one queued request (symbolic Count) that leaves the queue ungranted — its wait runs out, or it is cancelled; then a newcomer with symbolic Count and Timeout 5: nothing live is queued, so it is granted at once or is not admissible; no admissible request sits at the head of the queue afterwards", ["-witness", "1"], reach=["end", "left"])
